@@ -320,6 +320,11 @@ def run(index, rep, tier):
                           "the loop iterates %s directly and its body resizes it (%s): RuntimeError / skipped rows" % (txt, norm(bad) if bad is not None else ""))
         rep.floor("R19.7", "for-loops over the row store", 5, nfor)
 
+    # ---- R19.9 subset labels are looked up the way they are stored
+    with rep.section("R19.9"):
+        rep.rule("R19.9", "character-subset labels are probed the way they are stored: every keyed access of the caseless maps folds the key with the one folding method (C10 R10.9)")
+        rep.floor("R19.9", "borrowed obligations", 5, borrow(index, rep, "C10", {"R10.9"}, "R19.9"))
+
 
 def _r19_3(rep, fi, seeds):
     t = tainted_names(fi, seeds)
